@@ -89,7 +89,32 @@ def one(fname, f, args):
         r3 = canon(f(*[build(d) for d in before])) if all(isinstance(d, dict) for d in before) else r1
         if [snap(a) for a in args] != before: return False, 'arguments unchanged', 'argument modified by the second call of %s' % fname, None
     if not (r1 == r2 == r3): return False, r1, [r2, r3], None
+    # the owner of the first argument edits it in place (same object, new content): the answer must be the one for the new content,
+    # i.e. equal to the answer on an object freshly built from the edited description (nothing may be remembered on or about the object)
+    if edit_in_place(args[0]):
+        after = [snap(a) for a in args]
+        try:
+            with contextlib.redirect_stdout(buf):
+                r4 = canon(f(*args))
+                r5 = canon(f(*[build(d) for d in after])) if all(isinstance(d, dict) for d in after) else r4
+        except AssertionError:
+            return True, None, None, r1          # the edit made the object invalid for this function's own checks: not a history question
+        if r4 != r5: return False, 'after an in-place edit of the first argument: %r' % (r5,), r4, None
     return True, None, None, r1
+
+
+def edit_in_place(a):
+    """a small content change made on the object itself (deterministic); False when the kind has no such edit"""
+    F = getattr(a, 'F', None); Q = getattr(a, 'Q', None)
+    if isinstance(F, set) and isinstance(Q, set) and Q:
+        q = sorted(Q)[-1]
+        if q in F: F.discard(q)
+        else: F.add(q)
+        d = getattr(a, 'delta', None)
+        if isinstance(d, dict) and d and all(isinstance(v, set) for v in d.values()) and type(a).__name__ == 'NFA':
+            for k in sorted(d)[:2]: d[k].update(Q)           # existing target sets gain states (same dict, same keys, same number of entries)
+        return True
+    return False
 
 
 def child(seed, count, reverse=False):
